@@ -3,6 +3,7 @@
    Line 1: the registrations the driver created (fields read from the real DecoyRegistration objects).
    Publish  id, msg: msg = the abstract view of the DECODED real payload; it must be exactly the message the specification's
             station builds for that registration and operation (Validate = New, Activate = Update, Shutdown = Clear).
+   Dup / Tick / StState: lifetime histories (see below).
    DetState sessions: the real detector's session map after it handled the message (tags parsed from its dump, remaining
             lifetime rounded to the unused / active lifetime); must equal the specification's detector state. *)
 EXTENDS Detector, Json, TLCExt
@@ -24,6 +25,15 @@ TraceStep ==
             /\ sent'.proto = e.msg.proto /\ sent'.timeout = e.msg.timeout
             /\ (e.msg.op # "Clear" => sent'.tag = e.msg.tag)
        [] e.a = "DetState" -> det = AsSet(e.sessions) /\ UNCHANGED vars
+       \* lifetime histories: a duplicate delivery, time passing by d seconds, and the REAL station's view of every registration
+       \* (tracked at all / marked used) which must be the specification's
+       [] e.a = "Reset" -> /\ now' = 0 /\ st' = [r \in Regs |-> None] /\ det' = {} /\ sent' = None /\ cleared' = FALSE
+                           /\ obs' = [a |-> "Init"]
+       [] e.a = "Dup" -> Duplicate(RegOf(e.id))
+       [] e.a = "Tick" -> TickBy(e.d)
+       [] e.a = "StState" -> /\ \A r \in Regs : /\ (st[r] # None) = e.tracked[r.id]
+                                                 /\ (st[r] # None => st[r].used = e.used[r.id])
+                             /\ UNCHANGED vars
        [] OTHER -> FALSE
 TraceSpec == TraceInit /\ [][TraceStep]_tvars
 Post == PrintT(<<"TRACE_REACHED", TLCGet("stats").diameter>>) /\ TLCGet("stats").diameter = Len(TraceLog)
